@@ -15,14 +15,15 @@ EPS = F(1, 2 ** 52)
 
 # ----------------------------------------------------------------------------- configurations
 def mkcfg(name, method, estim, N, u, t=F(1, 2), eta=None, lam=F(1, 2), g=F(0), d=100, c=F(1, 2), cg=None,
-          p2=F(1, 10000), ro=True, f=0, grow=0, horizon=None, extra=None):
+          p2=F(1, 10000), ro=True, f=0, grow=0, horizon=None, extra=None, drive=None):
     u = F(u)
     if eta is None:
         eta = (t + u) / 2
     if cg is None:
         cg = 1 - EPS
     return dict(name=name, method=method, estim=estim, N=N, u=u, t=F(t), eta=F(eta), lam=F(lam), g=F(g), d=d,
-                c=F(c), cg=F(cg), p2=F(p2), ro=ro, f=f, grow=grow, horizon=horizon, extra=extra or {})
+                c=F(c), cg=F(cg), p2=F(p2), ro=ro, f=f, grow=grow, horizon=horizon, extra=extra or {},
+                drive=drive or {})
 
 
 def cs_seq(cfg, n):
@@ -82,6 +83,16 @@ def configs(tier):
             out.append(mkcfg(f"kw-t14-{tag}", "KW", "none", N, F(1), t=q, g=F(1, 8)))
     # a very small null mean, no padding: one zero ruins Kaplan-Markov for good however many large draws follow
     out.append(mkcfg("km-t1024-inf-g0", "KM", "none", 0, F(1), t=F(1, 1024), g=F(0)))
+    # a population in which the null becomes certain (the rest could all be u and the total would still fall short of
+    # N t, N t not an integer) while a cautious bettor is still ahead: gains first, then losses to the end
+    out.append(mkcfg("bet-fixed-lam120-t920-N16", "BETTING", "fixedbet", 16, F(1), t=F(9, 20), lam=F(1, 20),
+                     drive={"keepN": True, "ones_then_zeros": True}))
+    out.append(mkcfg("alpha-fixed-eta12-t920-N16", "ALPHA", "fixed", 16, F(1), t=F(9, 20), eta=F(1, 2),
+                     drive={"keepN": True, "ones_then_zeros": True}))
+    # a bound other than 1 with a null conditional mean that lands exactly on it (u = 2, N t = 6: after one 0 the
+    # remaining three cards must all be 2)
+    out.append(mkcfg("alpha-fixed-u2-t32-N4", "ALPHA", "fixed", 4, F(2), t=F(3, 2), drive={"keepN": True}))
+    out.append(mkcfg("bet-fixed-u2-t32-N4", "BETTING", "fixedbet", 4, F(2), t=F(3, 2), lam=F(1, 4), drive={"keepN": True}))
     # a bet of exactly zero, and a population bound and null mean well above 1
     for N in ([0, 4] if tier == "quick" else [0, 4, 6]):
         tag = "inf" if N == 0 else f"N{N}"
@@ -92,6 +103,12 @@ def configs(tier):
     for N in Ns:
         tag = "inf" if N == 0 else f"N{N}"
         out.append(mkcfg(f"alpha-optcomp-tiny-{tag}", "ALPHA", "optcomp", N, F(65537, 65536)))
+    # a tiny margin again, with an assumed two-vote rate small enough for it (the estimate then stays inside [0, u])
+    for N in Ns:
+        tag = "inf" if N == 0 else f"N{N}"
+        out.append(mkcfg(f"alpha-optcomp-small-{tag}", "ALPHA", "optcomp", N, F(131073, 131072), p2=F(1, 1000000)))
+        # the SPRT takes its alternative from eta alone, whatever estimator the object was built with
+        out.append(mkcfg(f"sprt-shrinkobj-{tag}", "SPRT", "none", N, F(1), drive={"sprt_estim": True}))
     # extra code-only variants (estimator parameters the specification does not transcribe)
     for N in Ns:
         tag = "inf" if N == 0 else f"N{N}"
@@ -238,6 +255,8 @@ def build_test(cfg):
             kw.update(estim=NonnegMean.shrink_trunc, c=float(cfg["c"]), d=cfg["d"], f=cfg["f"])
         elif e == "optcomp":
             kw.update(estim=NonnegMean.optimal_comparison, rate_error_2=float(cfg["p2"]))
+    if m == "SPRT" and cfg.get("drive", {}).get("sprt_estim"):
+        kw.update(estim=NonnegMean.shrink_trunc, c=0.5, d=10)
     if m == "BETTING":
         kw["lam"] = float(cfg["lam"])
         if e == "fixedbet":
@@ -367,7 +386,10 @@ def random_walk_samples(cfg, rng, n_walks, length, k=4):
     for w in range(n_walks):
         L = length if cfg["N"] == 0 else min(length, cfg["N"])
         xs = [rng.choice(gr) for _ in range(L)]
-        if w % 2 == 1:      # a long run of the smallest or the largest value first
+        if cfg.get("drive", {}).get("ones_then_zeros"):
+            k1 = 4 + w % 5
+            xs = [gr[-1]] * k1 + [gr[0]] * (L - k1)
+        elif w % 2 == 1:      # a long run of the smallest or the largest value first
             run = rng.randint(L // 4, max(L // 4, (3 * L) // 4))
             xs[:run] = [gr[0] if w % 4 == 1 else gr[-1]] * run
         for j in range(1, L + 1):
